@@ -60,6 +60,7 @@ def model_check(chk: Check, quick: bool) -> T.Tuple[T.Dict[str, T.Any], T.List[T
             cfg = (SPECS / 'ninja' / 'ProjectModel_MC.cfg').read_text()
             if quick:
                 cfg = cfg.replace('Deflibs = {"shared", "both", "static"}', 'Deflibs = {"shared", "both"}')
+                cfg = cfg.replace('LocSet = "all"', 'LocSet = "small"')
             else:
                 cfg = cfg.replace('Behavioural = "some"', 'Behavioural = "mirror"')
             out['family'] = run_tlc(SPECS / 'ninja', 'ProjectModel_MC', cfg_text=cfg, collect=['family.json'], timeout=3000,
@@ -193,9 +194,10 @@ def pipe_name_project() -> T.Dict[str, T.Any]:
 def main(chk: Check) -> None:
     quick = chk.tier == 'quick'
     rnd = random.Random(chk.seed * 1000003 + 4)
-    n_family = 40 if quick else 1400
-    n_random = 24 if quick else 400
-    n_corpus = 40 if quick else 10000
+    n_family = 32 if quick else 1400
+    n_random = 16 if quick else 400
+    n_corpus = 24 if quick else 10000
+    n_writer = 10000 if quick else 10 ** 9
     chk.rule = ('A: abstract two-target projects of the TLC family (seeded sample, a quarter each: colliding, non-colliding '
                 'same-name, with tests, any), A\': every graph of <=2 edges through the real manifest writer, '
                 'B: seeded random projects of 3-14 targets and the projects of test cases/common. Non-trivial = a '
@@ -204,35 +206,42 @@ def main(chk: Check) -> None:
     import time
     t0 = time.time()
     stages: T.Dict[str, float] = {}
-    fam, graphs = model_check(chk, quick)
-    stages['model_check'] = round(time.time() - t0, 1)
-    chk.extra['family_sizes'] = {'F1': len(fam['f1']), 'F2': len(fam['f2']), 'F3': len(fam['f3']), 'writer_graphs': len(graphs)}
-
-    jobs: T.List[T.Dict[str, T.Any]] = []
-    for k, p in enumerate(pick_family(fam, rnd, n_family, False)):
-        x = p.pop('x')
-        family = p.pop('family')
-        projgen.normalize(p)
-        # unity is not part of the model (the expectations do not depend on it): vary it on the real run
-        p['unity'] = rnd.choice(['off', 'off', 'on'])
-        jobs.append({'id': f'A{k}', 'kind': 'proj', 'p': p, 'family': family, 'expect': x})
+    # (B) jobs do not depend on the TLC output: they are configured while the model checking runs
+    bjobs: T.List[T.Dict[str, T.Any]] = []
     for k in range(n_random):
         r2 = random.Random(chk.seed * 7919 + k)
         p = projgen.random_project(r2, n_targets=r2.randint(3, 14), installs=False, options=False)
-        jobs.append({'id': f'B{k}', 'kind': 'proj', 'p': p})
-    jobs.append({'id': 'P0', 'kind': 'proj', 'p': pipe_name_project(), 'tag': 'target-name-with-pipe'})
+        bjobs.append({'id': f'B{k}', 'kind': 'proj', 'p': p})
+    bjobs.append({'id': 'P0', 'kind': 'proj', 'p': pipe_name_project(), 'tag': 'target-name-with-pipe'})
     dirs = bv.corpus_dirs()
     if len(dirs) > n_corpus:
         dirs = sorted(rnd.sample(dirs, n_corpus))
     for dd in dirs:
-        jobs.append({'id': 'C:' + dd.name, 'kind': 'corpus', 'p': None, 'srcdir': str(dd), 'name': dd.name, 'timeout': 240})
+        bjobs.append({'id': 'C:' + dd.name, 'kind': 'corpus', 'p': None, 'srcdir': str(dd), 'name': dd.name, 'timeout': 240})
 
     cases: T.List[T.Dict[str, T.Any]] = []
     with ProcessPoolExecutor(max_workers=common.NCPU) as ex:
+        bfut = [ex.submit(_run_job, j) for j in bjobs]
+        fam, graphs = model_check(chk, quick)
+        stages['model_check'] = round(time.time() - t0, 1)
+        chk.extra['family_sizes'] = {'F1': len(fam['f1']), 'F2': len(fam['f2']), 'F3': len(fam['f3']),
+                                     'writer_graphs': len(graphs)}
+        if n_writer < len(graphs):
+            graphs = rnd.sample(graphs, n_writer)
+        jobs: T.List[T.Dict[str, T.Any]] = []
+        for k, p in enumerate(pick_family(fam, rnd, n_family, False)):
+            x = p.pop('x')
+            family = p.pop('family')
+            projgen.normalize(p)
+            # unity is not part of the model (the expectations do not depend on it): vary it on the real run
+            p['unity'] = rnd.choice(['off', 'off', 'on'])
+            jobs.append({'id': f'A{k}', 'kind': 'proj', 'p': p, 'family': family, 'expect': x})
         wjobs = [(lo, graphs[lo:lo + 1500]) for lo in range(0, len(graphs), 1500)]
         wfut = [ex.submit(_writer_worker, j) for j in wjobs]
         for case in ex.map(_run_job, jobs, chunksize=1):
             cases.append(case)
+        for f in bfut:
+            cases.append(f.result())
         wcases: T.List[T.Dict[str, T.Any]] = []
         for f in wfut:
             wcases.extend(f.result())
